@@ -180,12 +180,12 @@ void run_lifecount(const std::vector<std::string> &w, out &o)
                 if (r->tail().v != q.front()) o.fail("tail() is " + S(r->tail().v) + ", the oldest pushed is " + S(q.front()));
                 r->pop(); q.pop_front();
             }
-            else if (ch == 'x')
+            else if (ch == 'x' || ch == 'X')
             { // exception safety: T(obj) throws after place->~T() has run
                 unsigned h0 = r->head_index(), t0 = r->tail_index(), a0 = r->avail();
                 THROW_NEXT_COPY = true;
                 bool thrown = false;
-                try { r->push(Tracked(k)); } catch (int) { thrown = true; }
+                try { if (ch == 'x') r->push(Tracked(k)); else { Tracked t(k); r->emplace(t); } } catch (int) { thrown = true; } // X: emplace has its own handler
                 THROW_NEXT_COPY = false;
                 if (!thrown) o.fail("push did not propagate the exception of the copy constructor");
                 if ((unsigned)r->head_index() != h0 || (unsigned)r->tail_index() != t0 || r->avail() != a0)
